@@ -12,7 +12,7 @@ SPEC = {
                      'theories/Wire/Item.v', 'theories/Base/Outcome.v', 'theories/Gen/Consts.v'],
     'harness': 'wirebinc',
     'args': {
-        'quick': ['-enc', 220, '-mut', 350, '-rnd', 300, '-deep', 1000000],
+        'quick': ['-enc', 200, '-mut', 300, '-rnd', 250, '-deep', 1000000],
         'thorough': ['-enc', 3000, '-mut', 5000, '-rnd', 4000, '-deep', 3000000],
     },
     'search_args': ['-enc', 2000, '-mut', 3000, '-rnd', 2000, '-deep', 1000000],
